@@ -73,7 +73,8 @@ def build(targets=None, timeout=1500):
         ok, out = regenerate()
         if not ok:
             return BuildResult(False, out, "translator", "translate")
-        if not os.path.exists(os.path.join(COQ, "Makefile")):
+        mk, cp = os.path.join(COQ, "Makefile"), os.path.join(COQ, "_CoqProject")
+        if not os.path.exists(mk) or os.path.getmtime(mk) < os.path.getmtime(cp):
             rc, o = sh("coq_makefile -f _CoqProject -o Makefile", cwd=COQ)
             if rc:
                 return BuildResult(False, o, "_CoqProject", "coq_makefile")
